@@ -31,9 +31,13 @@ DELTA_IDS = {1: "e:a|rel|b", 2: "n:m", 3: "n:z"}
 DELTA_KIND = {1: "edge", 2: "node", 3: "node"}
 
 
-def _deltas(ids):
+MAGS = [0.125, 0.0, -0.25]       # an approved delta may be 0.0 (two ops on one target that cancel) or negative
+
+
+def _deltas(ids, salt=None):
     from clematis.engine.types import ProposedDelta
-    return [ProposedDelta(target_kind=DELTA_KIND[i], target_id=DELTA_IDS[i], attr="weight", delta=0.125, op_idx=None, idx=n)
+    return [ProposedDelta(target_kind=DELTA_KIND[i], target_id=DELTA_IDS[i], attr="weight",
+                          delta=(0.125 if salt is None else MAGS[(i + salt) % 3]), op_idx=None, idx=n)
             for n, i in enumerate(ids)]
 
 
@@ -107,7 +111,7 @@ def replay_history(case) -> List[Tuple[str, str]]:
                     # the kill switch lives in run_turn; nothing to call at the apply level
                     pass
                 else:
-                    t4 = T4Result(approved_deltas=_deltas(ids), rejected_ops=[], reasons=[], metrics={})
+                    t4 = T4Result(approved_deltas=_deltas(ids, salt=turn + case.get("flip", 0)), rejected_ops=[], reasons=[], metrics={})
                     try:
                         res = apply_changes(ctx, state, t4)
                     except Exception as e:
